@@ -5,7 +5,8 @@ CONSTANTS
   Shared = TRUE
   TsSet = {1, 2}
   LiveSt = {"ACTIVE", "LEAVING"}
-  MaxUpd = 2
+  MaxUpd = 1
+  Clock0 = 1
   MaxClock = 2
   ThinK = @@THINK@@
   ThinR = @@THINR@@
